@@ -6,4 +6,6 @@ if ! git apply --check "$P" 2>/dev/null; then echo "patch does not apply"; git a
 git apply "$P"
 cd /verif && ./check $ID $TIER > /tmp/try_seed.$ID.out 2>&1; RC=$?
 git -C /repo checkout -- . 
+# rebuild against the restored tree so that no later run uses a binary built from the patched sources
+(cd /verif/harness && cargo build --release --offline >/dev/null 2>&1)
 echo "check exit=$RC"; grep -E "^\[|VIOLATION|KNOWN|MACHINERY|key=" /tmp/try_seed.$ID.out | cut -c1-400 | head -20
